@@ -71,9 +71,14 @@ func runPacketizer(toks []Tok) Outcome {
 				continue
 			}
 			if len(payload) > 0 {
+				// the room that remains for the payloader: the fixed header and, with abs-send-time on, the
+				// RFC 8285 block in the form the id requires (one-byte: 4+1+3, two-byte: 4+2+3 padded to 12)
 				budget := int(mtu) - 12
 				if abs != 0 {
 					budget -= 8
+				}
+				if abs > 14 {
+					budget -= 4
 				}
 				want := newPayloader(code).Payload(uint16(budget), payload)
 				if len(pk) != len(want) {
@@ -169,7 +174,7 @@ func runPacketizer(toks []Tok) Outcome {
 func init() {
 	register(&Prop{
 		ID:       "C06",
-		Rule:     "sequences of 1-8 Packetize / SkipSamples / GeneratePadding / EnableAbsSendTime calls on one packetizer: MTU 64-1500 (mass on 64-120), payloaders G711, G722, Opus (inputs below the budget), VP8 and a caller-defined payloader that returns no fragment for half of its inputs; payload sizes 1 B to 4 budgets incl. exact multiples of the budget; abs-send-time ids 1-14; sequence starts near 65535; timestamps near 2^32; clock instants over the NTP era; non-trivial = a call that produced >= 2 packets or padding",
+		Rule:     "sequences of 1-8 Packetize / SkipSamples / GeneratePadding / EnableAbsSendTime calls on one packetizer: MTU 64-1500 (mass on 64-120), payloaders G711, G722, Opus (inputs below the budget), VP8 and a caller-defined payloader that returns no fragment for half of its inputs; payload sizes 1 B to 4 budgets incl. exact multiples of the budget; abs-send-time ids 1-14 and, one time in eight, 15 / 16 / 100 / 255 (two-byte form); sequence starts near 65535; timestamps near 2^32; clock instants over the NTP era; non-trivial = a call that produced >= 2 packets or padding",
 		Quick:    4000,
 		Thorough: 200000,
 		Gen: func(r *RNG, tier string, n int, emit func(op int, toks ...Tok)) {
@@ -178,13 +183,16 @@ func init() {
 				mtu := c.Pick(64, 65, 72, 100, 120, 1200, 1500, 64+c.Intn(200))
 				code := c.Pick(0, 1, 2, 3, 4)
 				ops := TList{}
-				abs := false
+				abs := 0
 				for k, kn := 0, 1+c.Intn(8); k < kn; k++ {
 					switch x := c.Intn(10); {
 					case x < 5:
 						budget := mtu - 12
-						if abs {
+						if abs != 0 {
 							budget -= 8
+						}
+						if abs > 14 {
+							budget -= 4 // two-byte form of the extension block
 						}
 						var l int
 						switch c.Intn(4) {
@@ -208,10 +216,14 @@ func init() {
 						ops = append(ops, TList{TI(3), TI(int64(c.U64() % (1 << 32)))})
 					default:
 						id := 1 + c.Intn(14)
-						if c.Intn(4) == 0 {
+						switch c.Intn(8) {
+						case 0, 1:
 							id = 0
+						case 2:
+							// ids that only the RFC 8285 two-byte form can carry
+							id = c.Pick(15, 16, 100, 255)
 						}
-						abs = id != 0
+						abs = id
 						ops = append(ops, TList{TI(4), TI(int64(id))})
 					}
 				}
